@@ -9,6 +9,7 @@ import (
 	"sort"
 	"strconv"
 	"strings"
+	"sync"
 	"sync/atomic"
 	"time"
 
@@ -710,6 +711,77 @@ func runCase(c Case) (res pbt.Result) {
 				add(c.checkDirect(got, e)...)
 			}
 		}
+	}
+	// concurrent burst: several goroutines call EmitSync at the same time with rows of different keys (the table rows'
+	// keys and keys that match nothing) while the table is not changing; each answer is the one the model gives.
+	if c.Mode == "direct" && !broken && c.Burst > 0 {
+		type job struct {
+			sr gen.Row
+			e  *expect
+		}
+		jobs := make([][]job, c.Burst)
+		id := int64(2000000)
+		keys := [][]gen.Val{}
+		for _, r := range m.rows {
+			keys = append(keys, r.key)
+		}
+		for k := 0; k < 3; k++ {
+			tu := make([]gen.Val, len(c.Keys))
+			for j := range tu {
+				tu[j] = gen.Str(fmt.Sprintf("absent-%d-%d", k, j))
+			}
+			keys = append(keys, tu)
+		}
+		for g := range jobs {
+			for round := 0; round < 40; round++ {
+				for i := range keys {
+					sr := c.makeStreamRow(id, keys[(i+g*2)%len(keys)])
+					e := c.process(m, sr, "concurrent EmitSync")
+					exps[e.id] = e
+					jobs[g] = append(jobs[g], job{sr, e})
+					id++
+				}
+			}
+		}
+		var wg sync.WaitGroup
+		var mu sync.Mutex
+		for g := range jobs {
+			wg.Add(1)
+			go func(js []job) {
+				defer wg.Done()
+				for _, j := range js {
+					var got map[string]any
+					var err error
+					func() {
+						defer func() {
+							if p := recover(); p != nil {
+								err = fmt.Errorf("PANIC: %v", p)
+							}
+						}()
+						got, err = in.S.EmitSync(j.sr.Go())
+					}()
+					var ds []pbt.Disc
+					switch {
+					case err != nil:
+						ds = append(ds, pbt.D("emitsync-error", "%s: %v", j.e.desc(), err))
+					case got == nil && j.e.kept:
+						ds = append(ds, pbt.D("row-missing", "%s: EmitSync returned nil, want a result", j.e.desc()))
+					case got != nil && !j.e.kept:
+						ds = append(ds, pbt.D("row-unexpected", "%s: EmitSync returned %v, want nil (%s)", j.e.desc(), got, j.e.why))
+					case got != nil:
+						ds = c.checkDirect(got, j.e)
+					}
+					if len(ds) > 0 {
+						mu.Lock()
+						add(ds...)
+						mu.Unlock()
+						return
+					}
+				}
+			}(jobs[g])
+		}
+		wg.Wait()
+		res.Class("concurrent-emitsync-burst")
 	}
 	stopBG()
 
